@@ -40,7 +40,8 @@ CONSTANTS ForeignKeys,    \* keys whose address a foreign socket holds: binding 
           MaxObj, MaxSock,
           CbUnderLock, Capture, GiveUp, PreCheckClosed, NilPacketSock
 
-VARIABLES script,                   \* chosen in Init
+VARIABLES foreign,                  \* keys whose address a foreign socket holds NOW (initially ForeignKeys; a "free" op releases one)
+          script,                   \* chosen in Init
           pc, ip, tobj, lch, tafter,  \* per thread: label, script index, object being acquired, channel snapshot, "call began after Close returned"
           mgrLock, mgrMap,          \* manager
           obj, nobj,                \* shared listener objects
@@ -52,8 +53,8 @@ VARIABLES script,                   \* chosen in Init
           bad,                      \* set of property-violation tags observed
           tr                        \* schedule history <<proc, label>> (hidden by VIEW)
 
-vars == <<script, pc, ip, tobj, lch, tafter, mgrLock, mgrMap, obj, nobj, sock, nsock, chClosed, nch, hd, gor, fate, nitems, bad, tr>>
-View == <<script, pc, ip, tobj, lch, tafter, mgrLock, mgrMap, obj, nobj, sock, nsock, chClosed, nch, hd, gor, fate, nitems, bad>>
+vars == <<foreign, script, pc, ip, tobj, lch, tafter, mgrLock, mgrMap, obj, nobj, sock, nsock, chClosed, nch, hd, gor, fate, nitems, bad, tr>>
+View == <<foreign, script, pc, ip, tobj, lch, tafter, mgrLock, mgrMap, obj, nobj, sock, nsock, chClosed, nch, hd, gor, fate, nitems, bad>>
 
 G(g) == 100 + g        \* lock-holder id of goroutine g
 Objs == 1..MaxObj
@@ -66,7 +67,7 @@ NoSock == [key |-> 0, open |-> FALSE, q |-> <<>>]
 NoHd   == [st |-> "none", obj |-> 0, ch |-> 0, chNil |-> FALSE, closeCh |-> FALSE, onClose |-> FALSE, lock |-> 0, kind |-> "", closeDone |-> FALSE]
 NoGor  == [pc |-> "none", o |-> 0, held |-> 0, lnl |-> 0, sch |-> 0, sdone |-> 0]
 
-Init == /\ script \in ScriptChoices
+Init == /\ script \in ScriptChoices /\ foreign = ForeignKeys
         /\ pc = [t \in Threads |-> "idle"] /\ ip = [t \in Threads |-> 1]
         /\ tobj = [t \in Threads |-> 0] /\ lch = [t \in Threads |-> 0] /\ tafter = [t \in Threads |-> FALSE]
         /\ mgrLock = 0 /\ mgrMap = [k \in Keys |-> 0]
@@ -102,7 +103,7 @@ L1(t) == /\ pc[t] = "idle" /\ HasOp(t) /\ Op(t).a = "listen"
          /\ mgrLock' = t
          /\ pc' = [pc EXCEPT ![t] = "L2"]
          /\ Step(t, "L1")
-         /\ UNCHANGED <<script, ip, lch, tafter, sock, nsock, chClosed, nch, hd, gor, fate, nitems, bad>>
+         /\ UNCHANGED <<foreign, script, ip, lch, tafter, sock, nsock, chClosed, nch, hd, gor, fate, nitems, bad>>
 
 BoundElsewhere(k) == \E s \in Socks : sock[s].open /\ sock[s].key = k
 
@@ -113,9 +114,9 @@ L2(t) == /\ pc[t] = "L2"
                 h == Op(t).h
                 needBind == obj[o].sock = 0 IN
             /\ obj[o].lock = 0
-            /\ IF needBind /\ (BoundElsewhere(k) \/ k \in ForeignKeys)
+            /\ IF needBind /\ (BoundElsewhere(k) \/ k \in foreign)
                THEN \* bind error (EADDRINUSE): the call fails and returns; the handle slot is marked failed
-                    /\ bad' = IF k \in ForeignKeys THEN bad ELSE bad \cup {"listen-failed"}
+                    /\ bad' = IF k \in foreign THEN bad ELSE bad \cup {"listen-failed"}
                     /\ hd' = [hd EXCEPT ![h] = [NoHd EXCEPT !.st = "failed"]]
                     /\ UNCHANGED <<obj, sock, nsock, nch, gor>>
                ELSE /\ IF needBind
@@ -138,7 +139,7 @@ L2(t) == /\ pc[t] = "L2"
          /\ mgrLock' = 0
          /\ Finish(t)
          /\ Step(t, "L2")
-         /\ UNCHANGED <<script, tobj, lch, tafter, mgrMap, nobj, chClosed, fate, nitems>>
+         /\ UNCHANGED <<foreign, script, tobj, lch, tafter, mgrMap, nobj, chClosed, fate, nitems>>
 
 (* -------------------------------- close --------------------------------- *)
 \* listeners.go:99-107 / 160-164: handle lock (kept until Close returns), mark closed, close closeCh
@@ -152,7 +153,7 @@ C1(t) == /\ pc[t] = "idle" /\ HasOp(t) /\ Op(t).a = "close"
                ELSE /\ hd' = [hd EXCEPT ![h].lock = t, ![h].chNil = TRUE, ![h].closeCh = TRUE, ![h].onClose = FALSE]
                     /\ pc' = [pc EXCEPT ![t] = "C2"] /\ UNCHANGED ip
          /\ Step(t, "C1")
-         /\ UNCHANGED <<script, tobj, lch, tafter, mgrLock, mgrMap, obj, nobj, sock, nsock, chClosed, nch, gor, fate, nitems, bad>>
+         /\ UNCHANGED <<foreign, script, tobj, lch, tafter, mgrLock, mgrMap, obj, nobj, sock, nsock, chClosed, nch, gor, fate, nitems, bad>>
 
 \* items still queued on a socket that is closed are reset (stream) / dropped (packet) by the kernel
 KillQueue(s, f) == [i \in Items |-> IF \E j \in 1..Len(sock[s].q) : sock[s].q[j] = i
@@ -186,7 +187,7 @@ C2(t) == /\ pc[t] = "C2"
                             /\ hd' = [hd EXCEPT ![h].lock = 0, ![h].st = "closed", ![h].closeDone = TRUE]
                             /\ Finish(t)
          /\ Step(t, "C2")
-         /\ UNCHANGED <<script, tobj, lch, tafter, mgrLock, mgrMap, nobj, nsock, nch, gor, nitems, bad>>
+         /\ UNCHANGED <<foreign, script, tobj, lch, tafter, mgrLock, mgrMap, nobj, nsock, nch, gor, nitems, bad>>
 
 \* listeners.go:361-365 / 385-389 manager callback: delete the map entry
 C4(t) == /\ pc[t] = "C4"
@@ -201,14 +202,20 @@ C4(t) == /\ pc[t] = "C4"
             /\ hd' = [hd EXCEPT ![h].lock = 0, ![h].st = "closed", ![h].closeDone = TRUE]
          /\ Finish(t)
          /\ Step(t, "C4")
-         /\ UNCHANGED <<script, tobj, lch, tafter, mgrLock, nobj, sock, nsock, chClosed, nch, gor, fate, nitems, bad>>
+         /\ UNCHANGED <<foreign, script, tobj, lch, tafter, mgrLock, nobj, sock, nsock, chClosed, nch, gor, fate, nitems, bad>>
 
 (* ------------------------- accept / read (API side) ---------------------- *)
 \* listeners.go:83-86 snapshot of acceptCh under the handle lock / start of ReadFrom
+\* the foreign socket that held key k goes away (the next listen on k can bind)
+FreeOp(t) == /\ pc[t] = "idle" /\ HasOp(t) /\ Op(t).a = "free"
+             /\ foreign' = foreign \ {Op(t).k}
+             /\ Finish(t) /\ Step(t, "Free")
+             /\ UNCHANGED <<script, tobj, lch, tafter, mgrLock, mgrMap, obj, nobj, sock, nsock, chClosed, nch, hd, gor, fate, nitems, bad>>
+
 \* a script step on a handle whose listen failed is skipped by the driver
 SkipFailed(t) == /\ pc[t] = "idle" /\ HasOp(t) /\ Op(t).a = "accept" /\ hd[Op(t).h].st = "failed"
                  /\ Finish(t) /\ Step(t, "Skip")
-                 /\ UNCHANGED <<script, tobj, lch, tafter, mgrLock, mgrMap, obj, nobj, sock, nsock, chClosed, nch, hd, gor, fate, nitems, bad>>
+                 /\ UNCHANGED <<foreign, script, tobj, lch, tafter, mgrLock, mgrMap, obj, nobj, sock, nsock, chClosed, nch, hd, gor, fate, nitems, bad>>
 
 A1(t) == /\ pc[t] = "idle" /\ HasOp(t) /\ Op(t).a = "accept"
          /\ LET h == Op(t).h IN
@@ -220,7 +227,7 @@ A1(t) == /\ pc[t] = "idle" /\ HasOp(t) /\ Op(t).a = "accept"
                THEN /\ Finish(t)      \* repaired code: a closed handle refuses before offering a request
                ELSE /\ pc' = [pc EXCEPT ![t] = "A2"] /\ UNCHANGED ip
          /\ Step(t, "A1")
-         /\ UNCHANGED <<script, tobj, mgrLock, mgrMap, obj, nobj, sock, nsock, chClosed, nch, hd, gor, fate, nitems, bad>>
+         /\ UNCHANGED <<foreign, script, tobj, mgrLock, mgrMap, obj, nobj, sock, nsock, chClosed, nch, hd, gor, fate, nitems, bad>>
 
 Delivered(t, h, i) == /\ fate' = [fate EXCEPT ![i] = [st |-> "delivered", at |-> h]]
                       /\ bad' = IF tafter[t] THEN bad \cup {"delivered-after-close"} ELSE bad
@@ -242,7 +249,7 @@ A2recv(t) == /\ pc[t] = "A2"
                                 /\ UNCHANGED fate
              /\ Finish(t)
              /\ Step(t, "A2recv")
-             /\ UNCHANGED <<script, tobj, lch, tafter, mgrLock, mgrMap, obj, nobj, sock, nsock, chClosed, nch, hd, nitems>>
+             /\ UNCHANGED <<foreign, script, tobj, lch, tafter, mgrLock, mgrMap, obj, nobj, sock, nsock, chClosed, nch, hd, nitems>>
 
 \* select, branches "acceptCh closed" / "closeCh closed": the call fails with net.ErrClosed
 A2closed(t) == /\ pc[t] = "A2"
@@ -252,7 +259,7 @@ A2closed(t) == /\ pc[t] = "A2"
                   /\ bad' = IF hd[h].closeCh THEN bad ELSE bad \cup {"spurious-closed"}
                /\ Finish(t)
                /\ Step(t, "A2closed")
-               /\ UNCHANGED <<script, tobj, lch, tafter, mgrLock, mgrMap, obj, nobj, sock, nsock, chClosed, nch, hd, gor, fate, nitems>>
+               /\ UNCHANGED <<foreign, script, tobj, lch, tafter, mgrLock, mgrMap, obj, nobj, sock, nsock, chClosed, nch, hd, gor, fate, nitems>>
 
 (* ----------------------------- goroutines ------------------------------- *)
 \* stream, listeners.go:216-223: read m.ln under the object lock
@@ -261,7 +268,7 @@ Gtop(g) == /\ gor[g].pc = "top"
               /\ obj[o].lock = 0
               /\ gor' = [gor EXCEPT ![g].pc = IF obj[o].sock = 0 THEN "done" ELSE "accept", ![g].lnl = obj[o].sock]
            /\ Step(G(g), "Gtop")
-           /\ UNCHANGED <<script, pc, ip, tobj, lch, tafter, mgrLock, mgrMap, obj, nobj, sock, nsock, chClosed, nch, hd, fate, nitems, bad>>
+           /\ UNCHANGED <<foreign, script, pc, ip, tobj, lch, tafter, mgrLock, mgrMap, obj, nobj, sock, nsock, chClosed, nch, hd, fate, nitems, bad>>
 
 \* stream, listeners.go:224-229: AcceptStream returns a connection, or ErrClosed -> close(m.acceptCh)
 Gaccept(g) == /\ gor[g].pc = "accept"
@@ -281,7 +288,7 @@ Gaccept(g) == /\ gor[g].pc = "accept"
                          /\ bad' = IF c \in chClosed THEN bad \cup {"panic-close-of-closed-channel"} ELSE bad
                     /\ UNCHANGED <<sock, fate>>
               /\ Step(G(g), "Gaccept")
-              /\ UNCHANGED <<script, pc, ip, tobj, lch, tafter, mgrLock, mgrMap, obj, nobj, nsock, nch, hd, nitems>>
+              /\ UNCHANGED <<foreign, script, pc, ip, tobj, lch, tafter, mgrLock, mgrMap, obj, nobj, nsock, nch, hd, nitems>>
 
 \* repaired code only: the goroutine gives up when everybody has gone and closes the connection it holds
 Ggiveup(g) == /\ GiveUp
@@ -290,7 +297,7 @@ Ggiveup(g) == /\ GiveUp
               /\ fate' = [fate EXCEPT ![gor[g].held] = [st |-> "srvclosed", at |-> 0]]
               /\ chClosed' = chClosed \cup {gor[g].sch}
               /\ Step(G(g), "Ggiveup")
-              /\ UNCHANGED <<script, pc, ip, tobj, lch, tafter, mgrLock, mgrMap, obj, nobj, sock, nsock, nch, hd, nitems, bad>>
+              /\ UNCHANGED <<foreign, script, pc, ip, tobj, lch, tafter, mgrLock, mgrMap, obj, nobj, sock, nsock, nch, hd, nitems, bad>>
 
 \* packet, listeners.go:290: m.pc.ReadFrom returns a datagram, or an error once the socket is closed
 Pread(g) == /\ gor[g].pc = "read"
@@ -306,14 +313,14 @@ Pread(g) == /\ gor[g].pc = "read"
                   /\ gor' = [gor EXCEPT ![g].pc = "sel", ![g].held = -1, ![g].sch = c, ![g].sdone = d]
                   /\ UNCHANGED <<sock, fate>>
             /\ Step(G(g), "Pread")
-            /\ UNCHANGED <<script, pc, ip, tobj, lch, tafter, mgrLock, mgrMap, obj, nobj, nsock, chClosed, nch, hd, nitems, bad>>
+            /\ UNCHANGED <<foreign, script, pc, ip, tobj, lch, tafter, mgrLock, mgrMap, obj, nobj, nsock, chClosed, nch, hd, nitems, bad>>
 
 \* packet, listeners.go:300-301: doneCh closed -> the goroutine exits (a datagram it holds is dropped)
 Pdone(g) == /\ gor[g].pc = "sel" /\ gor[g].sdone \in chClosed
             /\ gor' = [gor EXCEPT ![g].pc = "done", ![g].held = 0]
             /\ fate' = IF gor[g].held > 0 THEN [fate EXCEPT ![gor[g].held] = [st |-> "dropped", at |-> 0]] ELSE fate
             /\ Step(G(g), "Pdone")
-            /\ UNCHANGED <<script, pc, ip, tobj, lch, tafter, mgrLock, mgrMap, obj, nobj, sock, nsock, chClosed, nch, hd, nitems, bad>>
+            /\ UNCHANGED <<foreign, script, pc, ip, tobj, lch, tafter, mgrLock, mgrMap, obj, nobj, sock, nsock, chClosed, nch, hd, nitems, bad>>
 
 (* ----------------------------- environment ------------------------------ *)
 Connect(k) == /\ nitems < NItems
@@ -326,14 +333,14 @@ Connect(k) == /\ nitems < NItems
                  ELSE /\ fate' = [fate EXCEPT ![nitems + 1] = [st |-> "refused", at |-> 0]]
                       /\ UNCHANGED sock
               /\ Step(0, "Connect" \o ToString(k))
-              /\ UNCHANGED <<script, pc, ip, tobj, lch, tafter, mgrLock, mgrMap, obj, nobj, nsock, chClosed, nch, hd, gor, bad>>
+              /\ UNCHANGED <<foreign, script, pc, ip, tobj, lch, tafter, mgrLock, mgrMap, obj, nobj, nsock, chClosed, nch, hd, gor, bad>>
 
 AllDone == \A t \in Threads : pc[t] = "idle" /\ ~HasOp(t)
 \* a call legitimately waiting for traffic on an open handle is not a deadlock
 Parked(t) == pc[t] = "A2" /\ ~hd[Op(t).h].closeCh
 Terminal == (\A t \in Threads : (pc[t] = "idle" /\ ~HasOp(t)) \/ Parked(t)) /\ UNCHANGED vars
 
-ThreadStep == \E t \in Threads : SkipFailed(t) \/ L1(t) \/ L2(t) \/ C1(t) \/ C2(t) \/ C4(t) \/ A1(t) \/ A2recv(t) \/ A2closed(t)
+ThreadStep == \E t \in Threads : FreeOp(t) \/ SkipFailed(t) \/ L1(t) \/ L2(t) \/ C1(t) \/ C2(t) \/ C4(t) \/ A1(t) \/ A2recv(t) \/ A2closed(t)
 GorStep == \E g \in Socks : Gtop(g) \/ Gaccept(g) \/ Ggiveup(g) \/ Pread(g) \/ Pdone(g)
 EnvStep == \E k \in Keys : Connect(k)
 
